@@ -104,6 +104,14 @@ def recipes(tier: str):
         [R.block("rb", [R.rule(("and", P("x", (), "lo"), P("y", (), "hi")), [("o1", (), "lo")]),
                         R.rule(P("x", ("any",), None), [("o2", (), "hi")], weight="0.500")], "Minimum", "Maximum", "Minimum")])
     out.append((const, False))
+    # resolutions equal to the batch sizes (a square membership matrix must not be mistaken for its transpose)
+    base_recipe = next(r for r, full in out if full)
+    for df in c01.INTEGRAL:
+        for res in (2, 3, 4):
+            r = R.clone(base_recipe)
+            r["name"] = f"{base_recipe['name']}-res{res}"
+            r["outputs"][0]["defuzzifier"] = [df, res]
+            out.append((r, False))
     # lock-range on the input variables: out-of-range rows must be clipped the same way in every mode
     for recipe, full in list(out):
         if full or recipe["outputs"][0]["defuzzifier"][0] in ("WeightedAverage", "WeightedSum") and recipe["inputs"][0]["terms"][0]["cls"] == "Triangle":
